@@ -850,5 +850,21 @@ func c01StaleObject(c *Ctx, r *Rng) {
 			c.R.Add(Finding{Kind: "oracle", What: "one-shot clean failed on a healthy store", Case: enc, Impl: clip(se.String(), 200)})
 		}
 		os.Remove(obj)
+		// a pointer that names a stored object with ANOTHER size (a hand-edited or damaged pointer file): the
+		// smudge of that text may fail, but it must leave the object alone — the real pointer still smudges
+		if i%3 == 0 {
+			if _, code := runInStdin(dir, string(content), c.Lfs, "clean", "--", "y.bin"); code != 0 {
+				continue
+			}
+			wrong := canonicalPointer(oid, int64(len(content)+Pick(r, []int{1, -1, 1000})))
+			runInStdin(dir, string(wrong), c.Lfs, "smudge", "--", "y.bin")
+			out, code := runInStdin(dir, string(canonicalPointer(oid, int64(len(content)))), c.Lfs, "smudge", "--", "y.bin")
+			c.R.Count("stale-object.wrong-size-pointer")
+			if code != 0 || out != string(content) {
+				c.R.Add(Finding{Kind: "oracle", What: "clean then smudge did not return the original bytes", Case: fmt.Sprintf("C01 wrong-size-pointer size=%d", len(content)),
+					Impl: fmt.Sprintf("after the smudge of a pointer naming the same object with another size: exit %d, %d bytes back", code, len(out))})
+			}
+			os.Remove(obj)
+		}
 	}
 }
